@@ -100,6 +100,106 @@ Proof.
   eexists. eexists. repeat (split; [vm_compute; reflexivity|]). vm_compute; reflexivity.
 Qed.
 
+(* ---- transient failures of the store reads of the write path (AResumeReadFail) ---------------------------------- *)
+(* a failed read, from any state, publishes nothing and writes nothing (the failing cases finish the request with an
+   error and without calling the monitor; the SaveMeta case, where the code ignores the error, only moves the pc) *)
+Theorem C16_read_failed_publishes_nothing : forall s t s',
+  step s (AResumeReadFail t) = Some s' -> published s' = published s /\ persisted s' = persisted s.
+Proof. exact e3_read_failed_publishes_nothing. Qed.
+Print Assumptions C16_read_failed_publishes_nothing.
+
+(* a request that answered a read failure -- [EStoreRead], or [ECompilationFailed] for the metadata read of the
+   script's resources -- owns no event, in any reachable state *)
+Theorem C16_read_failed_no_event : forall s t th, reachable s -> get_thread (threads s) t = Some th ->
+  (t_resp th = Some (RErr EStoreRead) \/ t_resp th = Some (RErr ECompilationFailed)) ->
+  forall ev, In ev (published s) -> ev_tid ev <> t.
+Proof. exact e3_read_failed_no_event. Qed.
+Print Assumptions C16_read_failed_no_event.
+
+(* non-vacuity. As in C16_cancelled_nonvacuous: request 0 funds account 1, request 1 holds the account locks
+   ([PLocked]), request 2 (key 7, reference 9) is queued behind it. The balance read of request 1 fails under the
+   locks: it answers [EStoreRead], nothing published, nothing written, its locks are released and the FIFO re-check
+   GRANTS request 2, which completes and publishes exactly one event: events of tids [0; 2], 2 entries on disk. *)
+Definition c16_rf_rest : list action := repeat (AResume 2%nat) 8 ++ APersistOk :: repeat (AResume 2%nat) 3.
+Example C16_read_failed_nonvacuous :
+  exists s1 s2 s,
+    run init c16_cancel_prefix = Some s1 /\ v_queue s1 = [2%nat] /\ map (fun h => fst (fst h)) (v_locks s1) = [1%nat] /\
+    option_map t_pc (get_thread (threads s1) 1%nat) = Some PLocked /\
+    step s1 (AResumeReadFail 1%nat) = Some s2 /\
+    option_map t_resp (get_thread (threads s2) 1%nat) = Some (Some (RErr EStoreRead)) /\
+    published s2 = published s1 /\ persisted s2 = persisted s1 /\
+    v_queue s2 = [] /\ map (fun h => fst (fst h)) (v_locks s2) = [2%nat] /\
+    option_map t_granted (get_thread (threads s2) 2%nat) = Some true /\
+    run s2 c16_rf_rest = Some s /\
+    map ev_tid (published s) = [0%nat; 2%nat] /\ length (published s) = 2%nat /\ length (persisted s) = 2%nat /\
+    option_map t_resp (get_thread (threads s) 1%nat) = Some (Some (RErr EStoreRead)) /\
+    option_map t_resp (get_thread (threads s) 2%nat) = Some (Some (ROk (Some 1%nat))) /\
+    v_locks s = [] /\ v_queue s = [] /\ v_iks s = [] /\ v_refs s = [].
+Proof.
+  eexists. eexists. eexists. repeat (split; [vm_compute; reflexivity|]). vm_compute; reflexivity.
+Qed.
+(* the key lookup ([PIkTaken]) and the reference lookup ([PRefTaken]) of request 2 fail: [EStoreRead], key (and
+   reference) released, no event of thread 2 *)
+Example C16_read_failed_lookups_nonvacuous :
+  exists s s',
+    run init (firstn 13 c16_cancel_prefix ++ [AStart 2%nat (mk_create 7 9 false [(1%N, 3%N, 100%Z)]); AResumeReadFail 2%nat]) = Some s /\
+    option_map t_resp (get_thread (threads s) 2%nat) = Some (Some (RErr EStoreRead)) /\
+    map ev_tid (published s) = [0%nat] /\ v_iks s = [] /\ v_refs s = [] /\
+    run init (firstn 13 c16_cancel_prefix ++ [AStart 2%nat (mk_create 7 9 false [(1%N, 3%N, 100%Z)]);
+                                                AResume 2%nat; AResume 2%nat; AResumeReadFail 2%nat]) = Some s' /\
+    option_map t_resp (get_thread (threads s') 2%nat) = Some (Some (RErr EStoreRead)) /\
+    map ev_tid (published s') = [0%nat] /\ v_iks s' = [] /\ v_refs s' = [].
+Proof.
+  eexists. eexists. repeat (split; [vm_compute; reflexivity|]). vm_compute; reflexivity.
+Qed.
+
+(* THE SAVEMETA CASE (a finding about the code, not a violation of C16). SaveMeta under key 5 on transaction 7,
+   which does NOT exist; the read of the transaction fails with a transient error. SaveTransactionMetadata only tests
+   for the not-found error and ignores any other: the request goes on exactly as if the transaction had been found,
+   its metadata entry is appended and persisted, it is acknowledged ([ROk None]) and publishes its SAVED_METADATA
+   event -- AFTER its entry is on disk ([ev_persisted = 2], the entry is the second), so the event is faithful to a
+   persisted entry of the same kind owned by the publisher and [events_after_persist] holds of the final state
+   (C16_after_persist_partial applies: both exclusions are true). Without the read failure the same request answers
+   [ENotFound] and writes nothing; DeleteMetadata answers [ENotFound] in both cases. *)
+Definition c16_sm_req : request :=
+  {| rq_kind := KSaveMeta; rq_ik := 5%N; rq_ref := 0%N; rq_dry := false; rq_postings := []; rq_unb := false;
+     rq_revert := O; rq_target_tx := Some 7%nat |}.
+Definition c16_dm_req : request :=
+  {| rq_kind := KDelMeta; rq_ik := 6%N; rq_ref := 0%N; rq_dry := false; rq_postings := []; rq_unb := false;
+     rq_revert := O; rq_target_tx := Some 7%nat |}.
+Example C16_read_failed_savemeta_nonvacuous :
+  exists s1 s2 s3 s sn sd,
+    run init (firstn 13 c16_cancel_prefix ++ [AStart 3%nat c16_sm_req; AResume 3%nat]) = Some s1 /\
+    find_tx (persisted s1) 7%nat = None /\
+    option_map t_pc (get_thread (threads s1) 3%nat) = Some (PIkLookup None) /\
+    (* the read fails: a pc move, nothing published or written *)
+    step s1 (AResumeReadFail 3%nat) = Some s2 /\
+    option_map t_pc (get_thread (threads s2) 3%nat) = Some PAppendEnter /\
+    published s2 = published s1 /\ persisted s2 = persisted s1 /\
+    (* the entry is built, handed to the batcher and persisted: still no event *)
+    run s2 (repeat (AResume 3%nat) 3 ++ [APersistOk]) = Some s3 /\
+    map (fun e => (e_kind e, e_owner e, e_txid e, e_ik e)) (persisted s3) =
+      [(KCreate, 0%nat, Some 0%nat, 0%N); (KSaveMeta, 3%nat, None, 5%N)] /\
+    published s3 = published s1 /\
+    (* then it is acknowledged and publishes *)
+    run s3 (repeat (AResume 3%nat) 2) = Some s /\
+    option_map t_resp (get_thread (threads s) 3%nat) = Some (Some (ROk None)) /\
+    map (fun ev => (ev_tid ev, ev_kind ev, ev_txid ev, ev_persisted ev)) (published s) =
+      [(0%nat, KCreate, Some 0%nat, 1%nat); (3%nat, KSaveMeta, None, 2%nat)] /\
+    persisted s = persisted s3 /\ find_tx (persisted s) 7%nat = None /\
+    ik_revert_consistent_b s = true /\ ik_kind_consistent_b s = true /\ eap_b s = true /\
+    (* the same request when the read does not fail: not found, nothing written, no event *)
+    run s1 [AResume 3%nat] = Some sn /\
+    option_map t_resp (get_thread (threads sn) 3%nat) = Some (Some (RErr ENotFound)) /\
+    length (persisted sn) = 1%nat /\ map ev_tid (published sn) = [0%nat] /\
+    (* DeleteMetadata maps every error of the read to its not-found answer *)
+    run init (firstn 13 c16_cancel_prefix ++ [AStart 3%nat c16_dm_req; AResume 3%nat; AResumeReadFail 3%nat]) = Some sd /\
+    option_map t_resp (get_thread (threads sd) 3%nat) = Some (Some (RErr ENotFound)) /\
+    length (persisted sd) = 1%nat /\ map ev_tid (published sd) = [0%nat].
+Proof.
+  do 6 eexists. repeat (split; [vm_compute; reflexivity|]). vm_compute; reflexivity.
+Qed.
+
 (* ---- non-vacuity: two creates (the second under key 8), a revert of the first under key 7, the second create
    replayed under key 8, a metadata write and a preview; five events, the hypotheses of the partial theorem hold ---------------------- *)
 Definition c16_history : list (tid * request) :=
